@@ -38,6 +38,10 @@ def corpus():
         ["G L0", "P L0", "D L0", "R L0", "N", "X", "N", "C 71", "G L0", "P L0", "R @0="],
         # check value collision on a reused slot (freshness hypothesis false): stale handle resolves again
         ["C 81", "D @0=", "C 81", "G @0=", "R @1="],
+        # a create whose allocation fails leaves a reservation behind (slot stays EMPTY); the next create reuses it
+        ["F", "C 91", "R @1=", "G @1=", "R @1=", "P @1=", "D @1=", "P @1=", "R @1="],
+        ["C 92", "D @0=", "F", "F", "C 93", "R @3=", "D @3=", "G @3=", "P @3=", "X", "N"],
+        ["C 94", "F", "P @1z", "R @1z", "D @1n", "C 95", "R @2=", "D @2=", "R @2="],
         # random() returning 0 two hundred times: check 0 issued
         ["C 0", "G @0=", "R @0=", "D @0=", "P @0=", "R @0=", "G @0="],
     ]
@@ -48,7 +52,10 @@ def gen_case(rng, n_ops, fresh_counter, collide=False):
     k = 0  # creates so far
     for _ in range(n_ops):
         r = rng.random()
-        if k == 0 or r < 0.22:
+        if r < 0.04:
+            ops.append("F")
+            k += 1
+        elif k == 0 or r < 0.22:
             if collide and rng.random() < 0.5:
                 chk = rng.choice([5, 6, 7])
             else:
@@ -81,7 +88,8 @@ def gen_case(rng, n_ops, fresh_counter, collide=False):
                 ref = "L" + hex(rng.choice([0, 1, 2, rng.getrandbits(64), rng.getrandbits(33), NOCHK << 32 | rng.randrange(6),
                                             (1 << 63) | rng.randrange(4), rng.randrange(8) << 32 | rng.randrange(8)]))
             o = rng.random()
-            letter = "G" if o < 0.3 else "P" if o < 0.6 else "D" if o < 0.8 else "R"
+            letter = "G" if o < 0.25 else "A" if o < 0.31 else "P" if o < 0.6 else "D" if o < 0.8 else \
+                "R" if o < 0.94 else "B" if o < 0.97 else "V"
             ops.append("%s %s" % (letter, ref))
     return ops
 
@@ -158,7 +166,22 @@ def monitor(lines):
             slot[idx] = next_id
             nslots = max(nslots, idx + 1)
             next_id += 1
-        elif letter == "G":
+        elif letter == "F":
+            if res != -12:
+                return "create with failing allocation returned %d, expected -ENOMEM" % res
+            if dtors:
+                return "failed create ran a destructor"
+            # the failed call still reserved a slot: the lowest unoccupied one, or a new one (the
+            # iterator cursor runs over reserved slots as well)
+            if all(ix in slot for ix in range(nslots)):
+                nslots += 1
+        elif letter == "B":
+            if int(rp[2], 0) != (arg & 0xFFFFFFFF) or dtors:
+                return "base_convert(0x%x) returned %s" % (arg, rp[2])
+        elif letter == "V":
+            if int(rp[2], 0) != ((0xFFFFFFFF << 32) | (arg & 0xFFFFFFFF)) or dtors:
+                return "nocheck_convert(0x%x) returned %s" % (arg, rp[2])
+        elif letter in ("G", "A"):
             o = resolve(arg)
             if o and not o["destroyed"]:
                 if res != 0 or int(rp[2], 0) != o["id"]:
